@@ -403,15 +403,37 @@ type fdCall struct {
 	expect      int // documented number of evaluations of f
 	originKey   uint64
 	usesOrigin  bool
+
+	hostile       bool   // the callback trashes its argument slices before returning
+	callerChanged string // set by run: which caller-owned argument was modified
 }
 
 func (fc *fdCall) String() string {
 	return fmt.Sprintf("fd.%s formula=%s step=%v OriginKnown=%v n=%d m=%d", fc.routine, fc.formula.name, fc.step, fc.originKnown, fc.n, fc.m)
 }
 
+// trash overwrites a slice a user callback was handed with garbage, as a
+// callback that uses its argument as scratch space would (NaNs or huge finite
+// values, chosen by the argument's content).
+func trash(x []float64, key uint64) {
+	for i := range x {
+		if key&1 == 0 {
+			x[i] = math.NaN()
+		} else {
+			x[i] = 7e77 * float64(i+1)
+		}
+	}
+}
+
 // run executes the call. l may be nil (no ledger). abs selects the
-// magnitude variant.
+// magnitude variant. With fc.hostile set the callback computes its value,
+// then overwrites the slices it was given before it returns. After the call
+// fc.callerChanged tells whether the caller's x, y or OriginValue differ
+// from what was passed in.
 func (fc *fdCall) run(concurrent bool, l *callLedger, abs bool) []float64 {
+	fc.callerChanged = ""
+	hostile := fc.hostile
+	sameBits := func(a, b []float64) bool { return len(a) == len(b) && hashFloats(a) == hashFloats(b) }
 	form := fc.formula.f
 	if abs {
 		form = absFormula(form)
@@ -432,7 +454,16 @@ func (fc *fdCall) run(concurrent bool, l *callLedger, abs bool) []float64 {
 			g = func(x []float64) float64 { return math.Abs(f(x)) }
 		}
 		if l != nil {
-			return l.vector(g)
+			g = l.vector(g)
+		}
+		if hostile {
+			inner := g
+			g = func(x []float64) float64 {
+				key := hashFloats(x)
+				v := inner(x)
+				trash(x, key)
+				return v
+			}
 		}
 		return g
 	}
@@ -456,13 +487,24 @@ func (fc *fdCall) run(concurrent bool, l *callLedger, abs bool) []float64 {
 		x := append([]float64(nil), fc.x...)
 		switch fc.routine {
 		case "Gradient":
-			return fd.Gradient(nil, wrapV(fdVec), x, st)
+			out := fd.Gradient(nil, wrapV(fdVec), x, st)
+			if !sameBits(x, fc.x) {
+				fc.callerChanged = "x"
+			}
+			return out
 		case "Hessian":
 			h := mat.NewSymDense(fc.n, nil)
 			fd.Hessian(h, wrapV(fdVec), x, st)
+			if !sameBits(x, fc.x) {
+				fc.callerChanged = "x"
+			}
 			return append([]float64(nil), h.RawSymmetric().Data...)
 		default:
-			return []float64{fd.Laplacian(wrapV(fdVec), x, st)}
+			out := []float64{fd.Laplacian(wrapV(fdVec), x, st)}
+			if !sameBits(x, fc.x) {
+				fc.callerChanged = "x"
+			}
+			return out
 		}
 	case "CrossLaplacian":
 		if fc.originKnown {
@@ -486,9 +528,18 @@ func (fc *fdCall) run(concurrent bool, l *callLedger, abs bool) []float64 {
 			if l != nil {
 				l.end(hashWords(hashFloats(x), hashFloats(y)) != key)
 			}
+			if hostile {
+				k := hashFloats(x)
+				trash(x, k)
+				trash(y, k>>1)
+			}
 			return v
 		}
-		return []float64{fd.CrossLaplacian(f, x, y, st)}
+		out := []float64{fd.CrossLaplacian(f, x, y, st)}
+		if !sameBits(x, fc.x) || !sameBits(y, fc.y) {
+			fc.callerChanged = "x or y"
+		}
+		return out
 	case "Jacobian":
 		js := &fd.JacobianSettings{Formula: form, Step: fc.step, Concurrent: concurrent}
 		if fc.originKnown {
@@ -519,6 +570,9 @@ func (fc *fdCall) run(concurrent bool, l *callLedger, abs bool) []float64 {
 					y[i] = math.Abs(y[i])
 				}
 			}
+			if hostile {
+				trash(x, hashFloats(x))
+			}
 		}
 		dst := mat.NewDense(fc.m, fc.n, nil)
 		for i := 0; i < fc.m; i++ {
@@ -526,7 +580,16 @@ func (fc *fdCall) run(concurrent bool, l *callLedger, abs bool) []float64 {
 				dst.Set(i, j, 7.5) // must be overwritten
 			}
 		}
+		var origin0 []float64
+		if js.OriginValue != nil {
+			origin0 = append([]float64(nil), js.OriginValue...)
+		}
 		fd.Jacobian(dst, f, x, js)
+		if !sameBits(x, fc.x) {
+			fc.callerChanged = "x"
+		} else if origin0 != nil && !sameBits(origin0, js.OriginValue) {
+			fc.callerChanged = "OriginValue"
+		}
 		return append([]float64(nil), dst.RawMatrix().Data...)
 	}
 	panic("unknown routine")
@@ -679,6 +742,47 @@ func runFD(c *vrt.Ctx, race bool) {
 				}
 			}
 			mag := fc.run(false, nil, true)
+			// Hostile callback (uses its argument slices as scratch space
+			// after computing the value): every fd routine copies x before
+			// each call "in case it is modified", so the result, the
+			// evaluation points and the caller's data must be unaffected.
+			hostileCheck := func(conc bool, path string) {
+				if fc.routine == "Derivative" {
+					return // scalar argument
+				}
+				lh := newLedger(nil)
+				lh.pure = pure
+				fc.hostile = true
+				vh := fc.run(conc, lh, false)
+				fc.hostile = false
+				ncalls++
+				cls := path + ",hostile-callback" + okCls
+				c.Eval(fmt.Sprintf("fd.%s|%s|%s|n=%d", fc.routine, cls, fc.formula.name, fc.n), true)
+				hdesc := fmt.Sprintf("%s Concurrent=%v GOMAXPROCS=%d, f overwrites its argument slices before returning", fc, conc, p)
+				switch {
+				case fc.callerChanged != "":
+					c.Violationf(base+cls+"|caller-argument-modified", rp, "%s: the caller's %s was modified (f was handed the caller's slice instead of a copy)", hdesc, fc.callerChanged)
+				case !pure && !sameMultisetExcept(lh, l0, fc.originKey, false):
+					c.Violationf(base+cls+"|evaluation-points-differ-from-benign-run", rp, "%s: f was evaluated at other points (%d calls) than with a side-effect free f (%d calls): a buffer f had overwritten was reused", hdesc, lh.calls, l0.calls)
+				default:
+					for i := range vh {
+						bad := false
+						if !conc || p == 1 {
+							bad = math.Float64bits(vh[i]) != math.Float64bits(v0[i])
+						} else {
+							band := (2*float64(fc.terms) + 16) * u64 * math.Abs(mag[i])
+							bad = !(math.Abs(vh[i]-v0[i]) <= band)
+						}
+						if bad {
+							c.Violationf(base+cls+"|result-differs-from-benign-callback", rp, "%s: element %d = %v, with a side-effect free f the serial result is %v", hdesc, i, vh[i], v0[i])
+							break
+						}
+					}
+				}
+			}
+			if rep == 0 {
+				hostileCheck(false, "serial")
+			}
 			// concurrent run
 			r := c.RNG("fd", rep, ci)
 			pt := newPerturb(r, !race)
@@ -743,6 +847,11 @@ func runFD(c *vrt.Ctx, race bool) {
 						maxRatio = d / band
 					}
 				}
+			}
+			if p == 1 {
+				hostileCheck(true, "serial") // GOMAXPROCS=1 takes the serial code
+			} else {
+				hostileCheck(true, path)
 			}
 			if !leaked[fc.routine] {
 				if sites := leakSites(before, leakWait); sites != nil {
